@@ -24,18 +24,19 @@
 EXTENDS LayoutAlgebra
 CONSTANTS MaxSteps, InitFormats
 
-VARIABLES lay, content, last, steps
-vars == <<lay, content, last, steps>>
+VARIABLES lay, content, last, steps,
+          drops      \* the last step was one DropsOffMainline names
+vars == <<lay, content, last, steps, drops>>
 \* refs: the revisions outside the tip's ancestry that a tag / a pending merge names are available at the location
 Content0 == [tip |-> "tip", revno |-> "n", testaments |-> "T", tags |-> "G", basis |-> "tip", refs |-> "present"]
 InitLayouts == {l \in [tree : BOOLEAN, br : {"local", "bound", "ref"}, repo : {"own", "shared", "none"}, above : BOOLEAN,
                        fmt : InitFormats, mfmt : InitFormats, sfmt : InitFormats \cup {"none"}, dirty : BOOLEAN,
                        sync : Syncs, pre : BOOLEAN, km : {TRUE}, pure : {TRUE}] :
                     ValidLayout(l) /\ (l.above => l.sfmt = l.fmt) /\ l.mfmt = l.fmt /\ (l.pre => l.repo = "own")}
-Init == lay \in InitLayouts /\ content = Content0 /\ last = "none" /\ steps = 0
-Do(p, drops) == /\ steps < MaxSteps /\ steps' = steps + 1 /\ last # "diverges"
-                /\ lay' = p.lay /\ last' = p.out
-                /\ content' = IF drops THEN [content EXCEPT !.refs = "absent"] ELSE content
+Init == lay \in InitLayouts /\ content = Content0 /\ last = "none" /\ steps = 0 /\ drops = FALSE
+Do(p, d) == /\ steps < MaxSteps /\ steps' = steps + 1 /\ last # "diverges"
+            /\ lay' = p.lay /\ last' = p.out /\ drops' = d
+            /\ content' = IF d THEN [content EXCEPT !.refs = "absent"] ELSE content
 \* (the leading conjunct keeps the action's own name and argument on the edges of the dumped state graph)
 Reconfigure(k) == k \in Targets /\ Do(Impure(Plan(lay, k)), DropsOffMainline(lay, k))
 \* C52 is about going to the same or a NEWER format; attempts to go back are not explored
